@@ -26,7 +26,7 @@ Theorem C10_request_shape n ds i m realm pick timeout n' outs :
   exists usable p cid c m' n4 rest,
     route_request n i realm = Some usable /\ usable <> [] /\ choose usable pick = Some p /\
     p_conn p = Some cid /\ get_conn n cid = Some c /\
-    outs = OQueue cid m' :: rest /\ settle' n4 ds = (n', rest) /\ List.Forall (sysout (pmap n)) rest /\
+    outs = OQueue cid m' :: rest /\ settle_app' n4 ds = (n', rest) /\ List.Forall (sysout (pmap n)) rest /\
     o_req m' = true /\ o_cmd m' = o_cmd m /\ o_tag m' = o_tag m /\
     o_hbh m' = (if o_hbh m =? 0 then seq_next (c_hbh c) else o_hbh m) /\
     o_e2e m' = (if o_e2e m =? 0 then seq_next (n_e2e n) else o_e2e m) /\
@@ -67,7 +67,7 @@ Theorem C10_hbh_fresh n ds i m realm pick timeout n' outs :
   exists cid c m' rest n4 c4,
     outs = OQueue cid m' :: rest /\ get_conn n cid = Some c /\
     o_hbh m' = seq_next (c_hbh c) /\
-    settle' n4 ds = (n', rest) /\ get_conn n4 cid = Some c4 /\ c_hbh c4 = seq_next (c_hbh c) /\
+    settle_app' n4 ds = (n', rest) /\ get_conn n4 cid = Some c4 /\ c_hbh c4 = seq_next (c_hbh c) /\
     (1 <= c_hbh c <= 4294967295 ->
      1 <= o_hbh m' <= 4294967295 /\ o_hbh m' <> 0 /\ o_hbh m' <> c_hbh c /\
      seq_next (c_hbh c4) <> o_hbh m').
